@@ -99,13 +99,15 @@ def nodeJson (n : Node) : Json :=
     ("tags", jarr jS n.tags), ("options", optsJson n.options), ("description", optJ jS n.description),
     ("dims", jarr (fun (d : Dim) => Json.arr #[optJ jnat d.1, optJ jnat d.2]) n.dims)]
 
+def getRat (q : Json) : Except String Rat := do
+  match ← getList q with
+  | [n, m] => pure (mkRat (← n.getInt?) (← m.getNat?))
+  | _ => throw "bad rational"
+
 def getTbl (j : Json) : Except String UnitTable := do
   (← getList j).mapM (fun e => do
     match ← getList e with
-    | [s, d, q] =>
-      match ← getList q with
-      | [n, m] => pure (← getStr s, ← d.getNat?, mkRat (← n.getInt?) (← m.getNat?))
-      | _ => throw "bad unit magnitude"
+    | [s, d, a, b] => pure (← getStr s, ← d.getNat?, ← getRat a, ← getRat b)
     | _ => throw "bad unit entry")
 
 /-! specification input -/
@@ -131,6 +133,8 @@ def getStmt (j : Json) : Except String SStmt := do
   | "def" => pure (.defn path (← getKw (← (← field j "kw").getStr?))
       (← (← getList (← field j "dims")).mapM getPair) (← getSVal (← field j "v"))
       (← optOf getStr (fieldD j "unit")))
+  | "decl" => pure (.decl path (← getKw (← (← field j "kw").getStr?))
+      (← (← getList (← field j "dims")).mapM getPair) (← optOf getStr (fieldD j "unit")))
   | "mod" => pure (.modl path (← getSVal (← field j "v")) (← optOf getStr (fieldD j "unit")))
   | "imp" => pure (.imp path (← optOf getStr (fieldD j "source")) (← getSQuery (← field j "query")))
   | "constant" => pure (.constant path)
@@ -143,7 +147,7 @@ def getStmt (j : Json) : Except String SStmt := do
 
 def snodeJson (n : SNode) : Json :=
   Json.mkObj [("name", jS (joinDot n.path)), ("kw", jstr (kwStr n.kw)), ("unit", optJ jS n.unit),
-    ("value", valJson n.value), ("constant", Json.bool n.constant),
+    ("value", optJ valJson n.value), ("constant", Json.bool n.constant),
     ("condition", optJ jS n.condition), ("format", optJ jS n.format),
     ("tags", jarr jS n.tags), ("options", optsJson n.options), ("description", optJ jS n.description),
     ("dims", jarr (fun (d : Dim) => Json.arr #[optJ jnat d.1, optJ jnat d.2]) n.dims)]
@@ -211,7 +215,10 @@ def runSpec (tbl : UnitTable) (j : Json) : Except String Json := do
       if benv.mayReject then pure (jstr "outside") else
       match sRun tbl benv mainStmts with
       | .error e => pure (jstr (serrStr e))
-      | .ok env => pure (Json.mkObj [("nodes", jarr snodeJson env.nodes), ("mayReject", Json.bool env.mayReject),
+      | .ok env =>
+        -- a declared node without value makes the real parse fail in its validation loop (C16)
+        if env.nodes.any (fun n => n.value.isNone) then pure (jstr "outside") else
+        pure (Json.mkObj [("nodes", jarr snodeJson env.nodes), ("mayReject", Json.bool env.mayReject),
           ("base", jarr snodeJson benv.nodes),
           ("sources", jarr (fun (s : Str × List SNode) => Json.mkObj [("name", jS s.1), ("nodes", jarr snodeJson s.2)]) sources)])
 
